@@ -52,6 +52,47 @@ def run(ck):
                   "static %s in Logger::instance(): ownership not recognised" % t, key="Logger::instance|leaked-singleton")
     for cls in insts:
         one(ck, cls)
+    reentrancy(ck, insts)
+
+
+def reentrancy(ck, insts):
+    """the stop path waits for the worker, and the synchronous path runs foreign code (the handlers) under the hand-off mutex: neither
+    may meet a lock the other side needs"""
+    from engine.locks import LockFlow, direct_acquires
+    F = ck.facts
+    ck.rule("C04-O7", "no self-deadlock around the stop: resetOwnThread() is never called with the logger's mutex held (the worker it waits for may log and need it); "
+                      "the const status accessors (ownThread, ownThreadIsRunning) do not take the hand-off mutex, which process() holds while handlers run and ask for them (HttpSink::send does)")
+    n = 0
+    for cls in insts:
+        tag = "OwnThreadHandler<%s>" % cls.split("<", 1)[1].rstrip(">").split("::")[-1]
+        for f in sorted((x for x in F.fns.values() if x.cls == cls and x.body is not None and x.d.get("kind") == "method" and x.d.get("constm")), key=lambda x: x.sig):
+            acq = {a for a in direct_acquires(F, f) if a.endswith("::m_mutex") or "mutex" in a.lower()}
+            n += 1
+            ck.touch(f)
+            ck.ob("C04-O7", sitestr(f), not acq, "%s: %s() takes no lock" % (tag, f.name.split("::")[-1]) if not acq else
+                  "%s: the accessor %s() acquires %s - the non-recursive mutex process() holds while it runs the handlers synchronously (after a stop, or before asynchronous mode is on): "
+                  "a handler that asks for the logger's mode from inside the pipeline (HttpSink::send does) blocks for ever, and so does the exit of the process" % (tag, f.name.split("::")[-1], sorted(acq)),
+                  key="%s|locks-handoff-mutex" % f.name.split("::")[-1])
+    ck.require(n >= 2, "status accessors of OwnThreadHandler not found")
+    # callers of resetOwnThread outside the class: lockset at the call
+    resets = {f.id for f in F.fns.values() if f.cls in insts and f.name.endswith("::resetOwnThread")}
+    for f in sorted(F.fns.values(), key=lambda x: (x.file, x.line, x.sig)):
+        if f.body is None or f.cls in insts or "/src/qtlogger/" not in (f.file or ""):
+            continue
+        calls = [c for c in f.calls() if c.get("fn") in resets]
+        if not calls:
+            continue
+        ck.touch(f)
+        try:
+            lf = LockFlow(F, f)
+        except Exception:
+            ck.ob("C04-O7", sitestr(f, calls[0]), None, "lock state at the call of resetOwnThread() in %s not computed" % f.name)
+            continue
+        for c in calls:
+            held = [m for m in lf.held_set(c)] if hasattr(lf, "held_set") else [m for m in ("QtLogger::Logger::m_mutex",) if lf.held_at(c, m)]
+            ck.ob("C04-O7", sitestr(f, c), not held, "%s stops the own thread without holding a lock of its own" % f.name.split("::", 1)[-1] if not held else
+                  "%s calls resetOwnThread() while holding %s: the stop waits for the worker, and a handler that logs on the worker thread needs that mutex in Logger::processMessage - neither ever proceeds" %
+                  (f.name.split("::", 1)[-1], held), key="%s|reset-under-lock" % f.name.split("::")[-1])
 
 
 def one(ck, cls):
